@@ -30,3 +30,21 @@ func VerifNewFlowUnchecked(uuid assets.FlowUUID, name string, language i18n.Lang
 	}
 	return f
 }
+
+// VerifWaitingExits exposes flow.extractExitsFromWaits (what Inspect reports
+// as waiting exits) without the reflection-based parts of Inspect.
+func VerifWaitingExits(f flows.Flow) []flows.ExitUUID {
+	return f.(*flow).extractExitsFromWaits()
+}
+
+// VerifExtractResults exposes flow.extractResults restricted to routers (the
+// action part goes through the reflection walk of inspect.Results).
+func VerifRouterResults(f flows.Flow) []*flows.ResultInfo {
+	var out []*flows.ResultInfo
+	for _, n := range f.Nodes() {
+		if n.Router() != nil {
+			n.Router().EnumerateResults(func(i *flows.ResultInfo) { out = append(out, i) })
+		}
+	}
+	return out
+}
